@@ -31,6 +31,19 @@ oracles
                   pool variant (else clauses 1 and 2 would silently go unchecked for it).  A callable that is NEW and that
                   the default recipe cannot call is recorded as a note and in the domain string, not as a violation.
 
+* dimension sweep (C12/frame-dims, C12/fresh-dims, obligations as C12/frame and C12/fresh; classes 'dim-weights-*' of
+                  C12/mean-weights): the same two clauses on inputs that vary ONE further dimension each -- DIM_FLAVOURS:
+                  typed data (int16 / uint8 / int64 / float32 RDM vectors, measurements, model vectors), extreme units (x 1e-20,
+                  x 1e+9), containers (tuple-valued descriptors and tuple index arguments, vector-valued 2-D descriptors, int
+                  labels, reversed key order of the descriptor dictionaries), repeated / interleaved / unbalanced groups, sizes
+                  (one RDM / channel / time point; 7 RDMs, 8 x 11 for inference, 13 x 7 datasets), call sequences (an earlier
+                  call on the same / on other arguments of the same shapes precedes the call: clauses 1 and 2 hold for the LATER
+                  call as well -- the property is quantified over histories -- and what the caller holds from the earlier call,
+                  its result and its arguments, is not changed by the later call: labels '<fn>:later-call-changes-earlier-*'),
+                  existing output file of save(), and the whole sweep in a NEW interpreter under another PYTHONHASHSEED.
+                  Input classes '<label>@<family>': never a key of the base sweep.  Classes that fail on the unchanged tree are
+                  listed in PENDING_NEW / PENDING_REOBSERVED (pending triage by the main session) and are not registered.
+
 input_class labels: '<fn>:modifies-<arg>.<component>' for clause 1 and
 '<fn>:child-<mutator>-relabels|rewrites-parent.<argument>' (in-place operation on the RESULT changed <argument>) /
 '<fn>:parent-<mutator>-relabels|rewrites-child' (in-place operation on the ARGUMENTS changed the result) for clause 2
@@ -40,9 +53,10 @@ per (function, aliasing/mutation kind) so that each genuine defect of the unchan
 Cases whose generated arguments the callable rejects (it raises) are not evaluations of the property and are skipped.
 
 NOT covered by this tier: callables outside the five packages (io, vis, simulation, cengine); argument shapes /
-descriptor types outside the pool (more than 5 RDMs x 7 conditions, nested descriptor values); histories longer than
-producer + ONE in-place operation; effects on the file system of save(); the 'index' entries (excluded by the
-property's fingerprint); thread interleavings.  The all-inputs frame / freshness analysis is engine A (vf/frame).
+descriptor types outside the pool (more than 8 RDMs x 11 conditions, nested descriptor values); histories longer than
+(earlier call +) producer + ONE in-place operation; effects on the file system of save(); the 'index' entries (excluded by
+the property's fingerprint); thread interleavings; the quick tier samples the dimension sweep (one flavour per family and
+callable), only thorough runs every flavour x variant.  The all-inputs frame / freshness analysis is engine A (vf/frame).
 """
 import contextlib
 import copy
@@ -2407,10 +2421,12 @@ def sweep(thorough, visit, only=None):
 
 
 def dim_plan(rec, thorough):
-    """the (flavour, variant) pairs of the dimension sweep for one callable.
-    thorough: every flavour x every variant (two variants for the expensive callables).
-    quick: ONE case per family -- the flavour of the family and the variant rotate with the callable (crc of its name),
-    so that every callable meets every family and every flavour / variant is met by a share of the callables."""
+    """the (flavour, variant, both clauses?) triples of the dimension sweep for one callable.
+    thorough: every flavour x every variant (two variants for the expensive callables), clauses 1 and 2.
+    quick: ONE case per family with both clauses -- the flavour of the family and the variant rotate with the callable (crc
+    of its name), so that every callable meets every family and every flavour / variant is met by a share of the callables;
+    typed: one integer dtype and float32; sequence: both flavours; for the families typed / units / containers the other
+    variants of that flavour too, clause 1 only (one call each).  The quick tier SAMPLES the dimension sweep, thorough is complete."""
     import zlib
     q = rec.qual
     nv = MAX_VARIANTS if q in SPECS else AUTO_VARIANTS
@@ -2418,18 +2434,27 @@ def dim_plan(rec, thorough):
     if thorough:
         if q in SLOW:
             nv = min(nv, 2)
-        return [(fl, v) for fl in DIM_FLAVOURS for v in range(nv) if fl != 'exists' or save]
+        return [(fl, v, True) for fl in DIM_FLAVOURS for v in range(nv) if fl != 'exists' or save]
     i = zlib.crc32(q.encode())
     plan = []
     for j, fam in enumerate(FAMILIES):
         fls = [f for f in DIM_FLAVOURS if DIM_FLAVOURS[f] == fam]
         if fam in ('outfile', 'hashseed'):
             if save and fam == 'outfile':
-                plan += [('exists', 2), ('exists', 3)]
+                plan += [('exists', 2, True), ('exists', 3, True)]
             continue
         if q in SLOW and (i + j) % 3:
             continue
-        plan.append((fls[(i // 7 + j) % len(fls)], (i // 3 + j) % 3))
+        fl, v0 = fls[(i // 7 + j) % len(fls)], (i // 3 + j) % 3
+        if fam == 'typed':          # an integer dtype (rotating) AND float32
+            fl = fls[(i // 7 + j) % 3]
+        plan.append((fl, v0, True))
+        if fam in ('typed', 'units', 'containers') and q in SPECS and q not in SLOW:
+            plan += [(fl, v, False) for v in range(min(nv, 6)) if v != v0]
+        if fam == 'typed' and q not in SLOW:
+            plan.append(('f32', (v0 + 1) % 3, True))
+        if fam == 'sequence' and q not in SLOW:      # both kinds of earlier call
+            plan.append((fls[(i // 7 + j + 1) % len(fls)], v0, True))
     return plan
 
 
@@ -2440,20 +2465,24 @@ def dim_sweep(thorough, visit, only=None, flavours=None):
         if only and only not in q:
             continue
         dead = set()
-        for fl, v in dim_plan(rec, thorough):
+        tried = set()
+        for fl, v, both in dim_plan(rec, thorough):
             if fl in dead or (flavours and fl not in flavours):
                 continue
             case = dict(fn=q, flavour=fl, variant=v, seed=0)
             st, diffs, info = _cached('frame', case, frame_diffs)
-            if st != 'ok' and not thorough and v:      # quick: this variant does not exist / is rejected -> the first one
+            if st != 'ok' and both and not thorough and v:      # quick: this variant does not exist / is rejected -> the first one
                 case = dict(fn=q, flavour=fl, variant=0, seed=0)
                 st, diffs, info = _cached('frame', case, frame_diffs)
+            if (fl, case['variant']) in tried:
+                continue
+            tried.add((fl, case['variant']))
             if st != 'ok':
                 if 'no such variant' in diffs:
                     dead.add(fl)
                 continue
             n_ok[fl] = n_ok.get(fl, 0) + 1
-            plan = plan_for(info, thorough)
+            plan = plan_for(info, thorough) if both else []
             fr = None
             if plan and q not in MUTATORS and q not in VIEW_BY_CONTRACT:
                 pl = [list(x) for x in plan]
@@ -2528,13 +2557,12 @@ def _hash_run(quals=None, cases=None, hashseed=HASHSEED):
 @oracle('C12/hashseed')
 def orc_hashseed(case):
     """clauses 1 and 2 in a NEW interpreter started with PYTHONHASHSEED = case['hashseed'] (set iteration order differs).
-    case: fn, flavour, variant, seed, hashseed [, watch = only this label]"""
+    case: fn, flavour, variant, seed, hashseed, clause = 'frame' | 'fresh' [, watch = only this label]"""
     key = (case['hashseed'], _hash_key(case))
     if key not in _HASH:
         _hash_run(cases=[_base(case)], hashseed=case['hashseed'])
     r = _HASH[key]
-    diffs = [tuple(x) for x in (r['frame'] + r['fresh'])]
-    return _pick(r['status'], diffs, case)
+    return _pick(r['status'], [tuple(x) for x in r[case['clause']]], case)
 
 
 # ---- pending triage --------------------------------------------------------------------------------------
@@ -2951,6 +2979,8 @@ def tier_c_dims(run, thorough):
     n_ops = [0]
 
     def register(rec, case, diffs, fr, fam, frame_orc, fresh_orc):
+        if fam == 'hashseed':
+            case = dict(case, clause='frame')
         if not diffs:
             bf.check(frame_orc, case, 'unchanged@' + fam, function=rec.qual)
         for label, _ in diffs:
@@ -2962,6 +2992,8 @@ def tier_c_dims(run, thorough):
             pl, st, fd, k = fr
             n_ops[0] += k
             c2 = dict(case, plan=pl)
+            if fam == 'hashseed':
+                c2['clause'] = 'fresh'
             if st == 'ok' and not fd:
                 bi.check(fresh_orc, c2, 'independent@' + fam, nontrivial=bool(k), function=rec.qual)
             for label, _ in (fd if st == 'ok' else []):
